@@ -11,11 +11,23 @@
      5 L secret L pub L blob acc       an Ed25519 keypair and an encoding of its public key
                                        (canonical or mutated) pushed through the Noise identity check
                                        with a valid signature; acc = "blob decodes to pub" (oracle)
+     6 L chars                         Multiaddr::from_str + PeerId::try_from_multiaddr (text made of
+                                       p2p / ipfs / p2p-circuit components)
+     7 L bytes L bytes                 two ids: PartialEq, Ord, Hash against the byte order
+     8 n                               n draws of PeerId::random()
+     9 L secret L pub L blob acc       as 5, through a TLS certificate (QUIC; harness built with `quic`)
+     10 L blob L pkcs1 L sha acc       an RSA key (harness built with `rsa`): blob = protobuf framing
+                                       around its SubjectPublicKeyInfo, sha = SHA-256 of the canonical
+                                       message as computed by the harness, acc = "blob decodes to pkcs1"
    Traces:
-     kinds 1-3:  k 1 L bytes L text L component f1..f9 refacc refsame     accepted
-                 k 0 refacc                                              rejected
+     kinds 1-3,6: k 1 L bytes L text L component f1..f10 refacc refsame    accepted
+                  k 0 refacc agree                                        rejected
+                  (f10 / agree: every other entry point for the same input gives the same result)
      kind 4:     4 L pid_of_blob acc [L key L pid] refacc [L refpid]
-     kind 5:     5 L pid L pub nacc [L noise_pid] L refpid ispk
+     kind 5, 9:  k L pid L pub nacc [L handshake_pid] L refpid ispk
+     kind 7:     7 a1 a2 [eq ord hashimp byteseq bytesord texteq]   (ord: 0 Less 1 Equal 2 Greater)
+     kind 8:     8 ok
+     kind 10:    10 acc [L pid] nacc [L noise_pid] tacc [L tls_pid]
    A panic is the single number PANIC_MARK. *)
 From Coq Require Import List NArith Bool.
 From V.common Require Import Wire Varint.
@@ -31,7 +43,12 @@ Inductive case :=
 | CText (t : list N)
 | CComp (b : list N)
 | CBlob (blob sha : list N) (acc : bool) (key : list N)
-| CKey (secret pub blob : list N) (acc : bool).
+| CKey (secret pub blob : list N) (acc : bool)
+| CAddr (t : list N)
+| CPair (b1 b2 : list N)
+| CRandom (n : N)
+| CTls (secret pub blob : list N) (acc : bool)
+| CRsa (blob pkcs1 sha : list N) (acc : bool).
 
 Definition p_case : parser case :=
   let* k := pN in
@@ -43,12 +60,22 @@ Definition p_case : parser case :=
          pret (CBlob blob sha acc key)
   | 5 => let* s := pL in let* p := pL in let* blob := pL in let* acc := pBool in
          pret (CKey s p blob acc)
+  | 6 => let* b := pL in pret (CAddr b)
+  | 7 => let* a := pL in let* b := pL in pret (CPair a b)
+  | 8 => let* n := pN in pret (CRandom n)
+  | 9 => let* s := pL in let* p := pL in let* blob := pL in let* acc := pBool in
+         pret (CTls s p blob acc)
+  | 10 => let* blob := pL in let* pk := pL in let* sha := pL in let* acc := pBool in
+          pret (CRsa blob pk sha acc)
   | _ => pfail
   end.
 
 Definition well_formed (c : case) : bool :=
   match c with
-  | CBytes b | CText b | CComp b => true
+  | CBytes b | CText b | CComp b | CAddr b => true
+  | CPair _ _ | CRandom _ => true
+  | CTls s p blob _ => bytes_ok s && bytes_ok p && bytes_ok blob && (len s =? 32) && (len p =? 32)
+  | CRsa blob pk sha _ => bytes_ok blob && bytes_ok pk && bytes_ok sha && (len sha =? 32)
   | CBlob blob sha acc key =>
       bytes_ok blob && bytes_ok sha && (len sha =? 32) && bytes_ok key &&
       (if acc then len key =? 32 else len key =? 0)
@@ -61,16 +88,23 @@ Definition decode_case (l : list N) : option case :=
   | None => None
   end.
 
-Definition ones9 : list N := [1; 1; 1; 1; 1; 1; 1; 1; 1].
+Definition ones10 : list N := [1; 1; 1; 1; 1; 1; 1; 1; 1; 1].
 
 Definition accepted_tail (p : pid) : list N :=
-  eL (to_bytes p) ++ eL (to_text p) ++ eL (to_component p) ++ ones9 ++ [1; 1].
+  eL (to_bytes p) ++ eL (to_text p) ++ eL (to_component p) ++ ones10 ++ [1; 1].
 
 Definition parse_result (k : N) (r : option pid) : list N :=
   match r with
   | Some p => k :: 1 :: accepted_tail p
-  | None => [k; 0; 0]
+  | None => [k; 0; 0; 1]
   end.
+
+Definition enc_cmp (c : comparison) : N := match c with Lt => 0 | Eq => 1 | Gt => 2 end.
+Definition const_hash (sha : list N) : hash := fun _ => sha.
+
+Definition handshake_trace (k : N) (p : list N) (acc : bool) : list N :=
+  let pb := eL (to_bytes (from_public_key (const_hash []) p)) in
+  k :: pb ++ eL p ++ (if acc then 1 :: pb else [0]) ++ pb ++ [1].
 
 (* the key a blob stands for: the canonical form is decided by the model, everything else by
    the oracle bit of the case *)
@@ -89,9 +123,24 @@ Definition run (c : case) : list N :=
             let pb := eL (to_bytes (of_ed25519 [] k)) in
             1 :: eL k ++ pb ++ 1 :: pb
        else [0; 0])
-  | CKey s p blob acc =>
-      let pb := eL (to_bytes (of_ed25519 [] p)) in
-      5 :: pb ++ eL p ++ (if acc then 1 :: pb else [0]) ++ pb ++ [1]
+  | CKey s p blob acc => handshake_trace 5 p acc
+  | CAddr t => parse_result 6 (of_addr_text t)
+  | CPair b1 b2 =>
+      match of_bytes b1, of_bytes b2 with
+      | Some p, Some q =>
+          [7; 1; 1; b2n (pid_eqb p q); enc_cmp (pid_cmp p q); 1;
+           b2n (nlist_eqb (to_bytes p) (to_bytes q)); enc_cmp (list_cmp (to_bytes p) (to_bytes q));
+           b2n (nlist_eqb (to_text p) (to_text q))]
+      | a, b => [7; b2n (match a with Some _ => true | None => false end);
+                 b2n (match b with Some _ => true | None => false end)]
+      end
+  | CRandom _ => [8; 1]
+  | CTls s p blob acc => handshake_trace 9 p acc
+  | CRsa blob pk sha acc =>
+      if acc
+      then let pb := eL (to_bytes (remote_to_peer_id (const_hash sha) (KRsa pk))) in
+           10 :: 1 :: pb ++ 1 :: pb ++ 1 :: pb
+      else [10; 0; 0; 0]
   end.
 
 Definition run_case (l : list N) : list N :=
@@ -103,7 +152,6 @@ Definition run_case (l : list N) : list N :=
 (* ---------- the oracle ---------- *)
 Definition all_ones (l : list N) : bool := forallb (N.eqb 1) l.
 
-Definition pid_eqb (a b : pid) : bool := (code a =? code b) && nlist_eqb (digest a) (digest b).
 Definition opid_is (o : option pid) (p : pid) : bool :=
   match o with Some q => pid_eqb q p | None => false end.
 
@@ -111,7 +159,7 @@ Record accepted := mkAcc {
   a_bytes : list N; a_text : list N; a_comp : list N; a_flags : list N; a_refacc : N; a_refsame : N
 }.
 Definition p_accepted : parser accepted :=
-  let* b := pL in let* t := pL in let* c := pL in let* f := prep 9 pN in
+  let* b := pL in let* t := pL in let* c := pL in let* f := prep 10 pN in
   let* ra := pN in let* rs := pN in pret (mkAcc b t c f ra rs).
 
 (* everything the property demands of an accepted parse except canonicality of the input:
@@ -135,7 +183,7 @@ Definition canon_ok (c : case) (a : accepted) : bool :=
   | CBytes b => nlist_eqb b (a_bytes a)
   | CText t => nlist_eqb t (a_text a)
   | CComp b => nlist_eqb b (a_comp a)
-  | _ => true
+  | _ => true      (* "/ipfs/.." and addresses with more components are other spellings by design *)
   end.
 
 (* known class 1: the input is strictly longer than the rendering — an over-long varint
@@ -152,9 +200,40 @@ Definition overlong (c : case) (a : accepted) : bool :=
   end.
 
 Definition kind_of (c : case) : N :=
-  match c with CBytes _ => 1 | CText _ => 2 | CComp _ => 3 | CBlob _ _ _ _ => 4 | CKey _ _ _ _ => 5 end.
+  match c with
+  | CBytes _ => 1 | CText _ => 2 | CComp _ => 3 | CBlob _ _ _ _ => 4 | CKey _ _ _ _ => 5
+  | CAddr _ => 6 | CPair _ _ => 7 | CRandom _ => 8 | CTls _ _ _ _ => 9 | CRsa _ _ _ _ => 10
+  end.
 
-Definition is_parse (c : case) : bool := kind_of c <=? 3.
+Definition is_parse (c : case) : bool := (kind_of c <=? 3) || (kind_of c =? 6).
+
+(* two ids: the derived PartialEq / Ord / Hash agree with the byte form *)
+Definition pair_ok (body : list N) : bool :=
+  match body with
+  | [1; 1; eq; ord; hashimp; beq; bord; teq] =>
+      (eq =? beq) && (eq =? teq) && (ord =? bord) && (hashimp =? 1) &&
+      Bool.eqb (eq =? 1) (ord =? 1) && (eq <=? 1) && (ord <=? 2)
+  | [a1; a2] => negb ((a1 =? 1) && (a2 =? 1)) && (a1 <=? 1) && (a2 <=? 1)
+  | _ => false
+  end.
+
+(* an RSA key: whatever framing was received, all three paths give the id of the canonical
+   message (SHA-256 multihash; the digest is the oracle of the case) *)
+Definition rsa_ok (pk sha : list N) (acc : bool) (body : list N) : bool :=
+  match pall (let* a := pN in
+              let* p1 := (if a =? 1 then let* x := pL in pret (Some x) else pret None) in
+              let* na := pN in
+              let* p2 := (if na =? 1 then let* x := pL in pret (Some x) else pret None) in
+              let* ta := pN in
+              let* p3 := (if ta =? 1 then let* x := pL in pret (Some x) else pret None) in
+              pret (p1, p2, p3)) body with
+  | Some (p1, p2, p3) =>
+      let want := to_bytes (remote_to_peer_id (const_hash sha) (KRsa pk)) in
+      let good := fun o : option (list N) =>
+                    match o with Some x => acc && nlist_eqb x want | None => negb acc end in
+      good p1 && good p2 && good p3
+  | None => false
+  end.
 
 Definition blob_ok (blob sha : list N) (body : list N) : bool :=
   match pall (let* pid0 := pL in let* acc := pN in
@@ -209,7 +288,8 @@ Definition prop_parts (case trace : list N) : option (bool * bool * bool) :=
           if negb (k =? kind_of c) then Some (false, true, false)
           else if is_parse c then
             match rest with
-            | [0; ra] => Some (ra =? 0, true, false)   (* rejected: the reference must reject too *)
+            | [0; ra; ag] => Some ((ra =? 0) && (ag =? 1), true, false)
+                (* rejected: the reference and every other entry point must reject too *)
             | 1 :: body =>
                 match pall p_accepted body with
                 | Some a => Some (core_ok a, canon_ok c a, overlong c a)
@@ -220,7 +300,10 @@ Definition prop_parts (case trace : list N) : option (bool * bool * bool) :=
           else
             match c with
             | CBlob blob sha _ _ => Some (blob_ok blob sha rest, true, false)
-            | CKey _ pub _ acc => Some (key_ok pub acc rest, true, false)
+            | CKey _ pub _ acc | CTls _ pub _ acc => Some (key_ok pub acc rest, true, false)
+            | CPair _ _ => Some (pair_ok rest, true, false)
+            | CRandom _ => Some (match rest with [1] => true | _ => false end, true, false)
+            | CRsa _ pk sha acc => Some (rsa_ok pk sha acc rest, true, false)
             | _ => Some (false, true, false)
             end
       | [] => Some (false, true, false)
